@@ -40,6 +40,10 @@ IsSubseq(a, b) == IF a = <<>> THEN TRUE
 OrderOK(em, rc) == \A m \in Members : IsSubseq(Proj(rc, m), Proj(em, m))
 LastOK(em, rc) == \A m \in Members : Proj(em, m) # <<>> =>
                      (Proj(rc, m) # <<>> /\ Proj(rc, m)[Len(Proj(rc, m))] = Proj(em, m)[Len(Proj(em, m))])
+\* the same clause against the status the node itself reports for the member when everything has drained
+\* (st[m]: 0 not listed, 1 alive, 2 leaving, 3 left, 4 failed; kinds: 1 join, 2 leave, 3 failed, 4 update, 5 reap)
+KindsFor(s) == CASE s = 0 -> {5} [] s = 1 -> {1, 4} [] s = 2 -> {1, 4} [] s = 3 -> {2} [] OTHER -> {3}
+StatusOK(rc, st) == \A m \in Members : Proj(rc, m) # <<>> => Proj(rc, m)[Len(Proj(rc, m))][2] \in KindsFor(st[m + 1])
 MonInit == M = [bad |-> {}]
 MonStep(m, em, rc, drained) ==
   [bad |-> m.bad \cup (IF OrderOK(em, rc) THEN {} ELSE {"C16_not_a_subsequence"})
